@@ -97,6 +97,20 @@ func registerTimeIntrinsics(P *Program) {
 		clk := m.clockRead()
 		return Tuple{m.tb.Const(64, 1700000000), m.tb.Const(32, 0), clk}
 	}
+	// time.AfterFunc: the timer may fire at any later moment - with the symbolic scheduler the
+	// function runs on its own thread (every interleaving of the firing is explored); in a
+	// sequential harness it never fires. Stop / Reset report an active timer.
+	in["time.AfterFunc"] = func(fr *frame, args []Value) Value {
+		m := fr.m
+		if m.threads != nil {
+			m.spawn(args[1], nil, m.curPos)
+		}
+		tp := m.P.Pkgs["time"]
+		var cell Value = m.zero(tp.Type("Timer").Object().Type())
+		return &cell
+	}
+	in["(*time.Timer).Stop"] = func(fr *frame, args []Value) Value { return fr.m.tb.True() }
+	in["(*time.Timer).Reset"] = func(fr *frame, args []Value) Value { return fr.m.tb.True() }
 	in["time.Sleep"] = func(fr *frame, args []Value) Value {
 		fr.m.yield("time.Sleep")
 		return nil
